@@ -655,8 +655,29 @@ class Interp:
         if not broke:
             self.exec_block(ctx, st.orelse, fr)
 
+    WHILE_FUEL = 24
+
     def st_While(self, ctx, st, fr):
-        raise Unsupported('while loop')
+        # exact unrolling, no invariant guessed: every evaluation of the test is a branch point like `if`; a path
+        # that is still inside the loop after WHILE_FUEL iterations is outside the engine's reach (undecided)
+        n = 0
+        broke = False
+        while True:
+            c = self.eval(ctx, st.test, fr)
+            if not ctx.branch(self.truthy(ctx, c)):
+                break
+            n += 1
+            if n > self.WHILE_FUEL:
+                raise Unsupported('while loop: more than %d iterations on one path' % self.WHILE_FUEL)
+            try:
+                self.exec_block(ctx, st.body, fr)
+            except _Break:
+                broke = True
+                break
+            except _Continue:
+                continue
+        if not broke:
+            self.exec_block(ctx, st.orelse, fr)
 
     def st_FunctionDef(self, ctx, st, fr):
         raise Unsupported('nested function')
